@@ -483,3 +483,170 @@ Proof.
   exact (bridge_uniqueness RKd RKd_field p (vR p) (vR_law p Hp) (Gfun p) HL
            (kills_all_kills RKd p (Gfun p) HK) f).
 Qed.
+
+(* ------------------------------------------------------------------ *)
+(* EXISTENCE of the Gaussian integral (not its value): Cauchy criterion on the product filter,
+   tails bounded by  int_u^w |x| e^{-p x^2} dx = (e^{-p u^2} - e^{-p w^2}) / (2p) *)
+Lemma exp_le_compat x y : x <= y -> exp x <= exp y.
+Proof. intros [H|H]; [left; now apply exp_increasing | right; now f_equal]. Qed.
+
+Section Existence.
+Variable p : R.
+Hypothesis Hp : 0 < p.
+Let g : R -> R := gw p 0.
+
+Lemma g_eq x : g x = exp (- p * x ^ 2).
+Proof. unfold g, gw. cbn [pow]. ring. Qed.
+Lemma g_pos x : 0 < g x.
+Proof. rewrite g_eq. apply exp_pos. Qed.
+Lemma g_ex a b : ex_RInt g a b.
+Proof. apply (ex_RInt_continuous g a b). intros z _. apply gw_continuous. Qed.
+Lemma g_mono M x : M * M <= x * x -> g x <= g M.
+Proof. intro H. rewrite !g_eq. apply exp_le_compat. nra. Qed.
+
+Lemma tail_int s a b :
+  is_RInt (fun x => s * gw p 1 x) a b ((- s / (2 * p)) * g b - (- s / (2 * p)) * g a).
+Proof.
+  apply (is_RInt_derive (fun x => (- s / (2 * p)) * g x) (fun x => s * gw p 1 x) a b).
+  - intros x _.
+    replace (s * gw p 1 x) with ((- s / (2 * p)) * dgw p 0 x) by (unfold gw, dgw; field; lra).
+    apply (is_derive_scal g x (- s / (2 * p)) (dgw p 0 x)). apply gw_derive.
+  - intros x _. apply (continuous_scal_r s (gw p 1)). apply gw_continuous.
+Qed.
+
+Lemma tail_ordered s M a b : s = 1 \/ s = -1 -> 1 <= M -> M <= s * a -> M <= s * b -> a <= b ->
+  0 <= RInt g a b <= g M / (2 * p).
+Proof.
+  intros Hs HM Ha Hb Hab. split.
+  - apply RInt_ge_0; [exact Hab | apply g_ex | intros x _; left; apply g_pos].
+  - apply Rle_trans with (RInt (fun x => s * gw p 1 x) a b).
+    + apply RInt_le; [exact Hab | apply g_ex | eexists; apply tail_int |].
+      intros x Hx. assert (H1 : 1 <= s * x) by (destruct Hs; subst s; lra).
+      unfold g, gw. cbn [pow]. pose proof (exp_pos (- p * (x * (x * 1)))). nra.
+    + rewrite (is_RInt_unique _ _ _ _ (tail_int s a b)).
+      pose proof (g_pos a). pose proof (g_pos b).
+      assert (Hga : g a <= g M) by (apply g_mono; destruct Hs; subst s; nra).
+      assert (Hgb : g b <= g M) by (apply g_mono; destruct Hs; subst s; nra).
+      assert (Hi : 0 < / (2 * p)) by (apply Rinv_0_lt_compat; lra).
+      unfold Rdiv. destruct Hs; subst s; nra.
+Qed.
+
+Lemma tail_bound s M a b : s = 1 \/ s = -1 -> 1 <= M -> M <= s * a -> M <= s * b ->
+  Rabs (RInt g a b) <= g M / (2 * p).
+Proof.
+  intros Hs HM Ha Hb. destruct (Rle_dec a b) as [Hab|Hab].
+  - destruct (tail_ordered s M a b Hs HM Ha Hb Hab) as [H0 H1]. now rewrite Rabs_pos_eq.
+  - assert (Hba : b <= a) by lra.
+    destruct (tail_ordered s M b a Hs HM Hb Ha Hba) as [H0 H1].
+    pose proof (opp_RInt_swap g b a (g_ex b a)) as Hsw. change (- RInt g b a = RInt g a b) in Hsw.
+    rewrite <- Hsw, Rabs_Ropp. now rewrite Rabs_pos_eq.
+Qed.
+
+Lemma g_small (eps : posreal) : exists M, 1 <= M /\ g M / (2 * p) + g M / (2 * p) < eps.
+Proof.
+  assert (He : 0 < eps * p) by (apply Rmult_lt_0_compat; [apply cond_pos | exact Hp]).
+  destruct (gw_lim_p p 0 Hp (fun y => Rabs y < eps * p)) as [M0 HM0].
+  { exists (mkposreal _ He). intros y Hy. change (Rabs (y - 0) < eps * p) in Hy.
+    now rewrite Rminus_0_r in Hy. }
+  exists (Rmax 1 (M0 + 1)). split; [apply Rmax_l|].
+  assert (Hg : g (Rmax 1 (M0 + 1)) < eps * p).
+  { apply Rle_lt_trans with (Rabs (g (Rmax 1 (M0 + 1)))); [apply Rle_abs|].
+    apply HM0. pose proof (Rmax_r 1 (M0 + 1)). lra. }
+  replace (g (Rmax 1 (M0 + 1)) / (2 * p) + g (Rmax 1 (M0 + 1)) / (2 * p))
+    with (g (Rmax 1 (M0 + 1)) / p) by (field; lra).
+  apply Rmult_lt_reg_r with p; [exact Hp|]. unfold Rdiv. rewrite Rmult_assoc, Rinv_l by lra. lra.
+Qed.
+
+Lemma gauss_cauchy : exists l : R,
+  filterlim (fun ab : R * R => RInt g (fst ab) (snd ab))
+            (filter_prod (Rbar_locally m_infty) (Rbar_locally p_infty)) (locally l).
+Proof.
+  apply (proj1 (filterlim_locally_cauchy
+                  (F := filter_prod (Rbar_locally m_infty) (Rbar_locally p_infty))
+                  (fun ab : R * R => RInt g (fst ab) (snd ab)))).
+  intro eps. destruct (g_small eps) as [M [HM1 HMe]].
+  exists (fun ab : R * R => fst ab < - M /\ M < snd ab). split.
+  - apply (Filter_prod _ _ _ (fun a => a < - M) (fun b => M < b)).
+    + exists (- M). intros x Hx. exact Hx.
+    + exists M. intros x Hx. exact Hx.
+    + intros a b Ha Hb. split; assumption.
+  - intros [a b] [a' b'] [Ha Hb] [Ha' Hb']. cbn [fst snd] in *.
+    change (Rabs (RInt g a' b' - RInt g a b) < eps).
+    pose proof (RInt_Chasles g a' a b' (g_ex _ _) (g_ex _ _)) as C1.
+    pose proof (RInt_Chasles g a b b' (g_ex _ _) (g_ex _ _)) as C2.
+    change (RInt g a' a + RInt g a b' = RInt g a' b') in C1.
+    change (RInt g a b + RInt g b b' = RInt g a b') in C2.
+    replace (RInt g a' b' - RInt g a b) with (RInt g a' a + RInt g b b') by lra.
+    apply Rle_lt_trans with (1 := Rabs_triang _ _).
+    pose proof (tail_bound (-1) M a' a (or_intror eq_refl) HM1) as T1.
+    pose proof (tail_bound 1 M b b' (or_introl eq_refl) HM1) as T2.
+    assert (T1' : Rabs (RInt g a' a) <= g M / (2 * p)) by (apply T1; lra).
+    assert (T2' : Rabs (RInt g b b') <= g M / (2 * p)) by (apply T2; lra).
+    lra.
+Qed.
+
+Theorem gaussian_integral_exists : exists J0 : R, gint (fun x => exp (- p * x ^ 2)) J0.
+Proof.
+  destruct gauss_cauchy as [l Hl]. exists l.
+  apply (gint_ext g _ l l); [apply g_eq | reflexivity |].
+  unfold gint, is_RInt_gen, filterlimi, filter_le, filtermapi. intros P HP.
+  specialize (Hl P HP). unfold filtermap in Hl. revert Hl. apply filter_imp.
+  intros [a b] H. cbn [fst snd] in *. exists (RInt g a b). split; [|exact H].
+  apply (RInt_correct g a b). apply g_ex.
+Qed.
+
+(* ... and it is positive (so one can divide by it) *)
+Theorem gaussian_integral_pos (J0 : R) : gint (fun x => exp (- p * x ^ 2)) J0 -> 0 < J0.
+Proof.
+  intro H0.
+  assert (Hg : gint g J0) by (apply (gint_ext _ g J0 J0 (fun x => eq_sym (g_eq x)) eq_refl H0)).
+  assert (Hc : 0 < exp (- p) / 2) by (pose proof (exp_pos (- p)); lra).
+  destruct (proj1 (gint_spelled_out g J0) Hg (mkposreal _ Hc)) as [M HM]. cbn [pos] in HM.
+  set (a := - (Rabs M + 1)). set (b := Rabs M + 2).
+  pose proof (Rle_abs M) as HaM. pose proof (Rabs_pos M) as HaM0.
+  destruct (HM a b) as [y [Hy Hd]]; [unfold a; lra | unfold b; lra |].
+  rewrite <- (is_RInt_unique g a b y Hy) in Hd.
+  assert (Hlow : exp (- p) <= RInt g a b).
+  { pose proof (RInt_Chasles g a 0 b (g_ex _ _) (g_ex _ _)) as C1.
+    pose proof (RInt_Chasles g 0 1 b (g_ex _ _) (g_ex _ _)) as C2.
+    change (RInt g a 0 + RInt g 0 b = RInt g a b) in C1.
+    change (RInt g 0 1 + RInt g 1 b = RInt g 0 b) in C2.
+    assert (P1 : 0 <= RInt g a 0)
+      by (apply RInt_ge_0; [unfold a; lra | apply g_ex | intros x _; left; apply g_pos]).
+    assert (P2 : 0 <= RInt g 1 b)
+      by (apply RInt_ge_0; [unfold b; lra | apply g_ex | intros x _; left; apply g_pos]).
+    assert (P3 : exp (- p) <= RInt g 0 1).
+    { replace (exp (- p)) with (RInt (fun _ => exp (- p)) 0 1).
+      - apply RInt_le; [lra | apply ex_RInt_const | apply g_ex |].
+        intros x Hx. rewrite g_eq. apply exp_le_compat.
+        assert (Hx2 : x ^ 2 <= 1) by (cbn [pow]; nra). nra.
+      - rewrite RInt_const. unfold scal; cbn. unfold mult; cbn. ring. }
+    lra. }
+  apply Rabs_def2 in Hd. lra.
+Qed.
+End Existence.
+
+(* ------------------------------------------------------------------ *)
+(* UNCONDITIONAL normalised bridge: the Gaussian expectation of a polynomial is E f.  Nothing
+   is assumed; the only thing not determined here is the VALUE of the normalising constant. *)
+Definition J0R (p : R) : R := Gint (fun x => exp (- p * x ^ 2)).
+
+Lemma J0R_correct p : 0 < p -> gint (fun x => exp (- p * x ^ 2)) (J0R p).
+Proof. intro Hp. destruct (gaussian_integral_exists p Hp) as [l Hl]. unfold J0R.
+  now rewrite (Gint_correct _ _ Hl). Qed.
+Lemma J0R_pos p : 0 < p -> 0 < J0R p.
+Proof. intro Hp. exact (gaussian_integral_pos p Hp _ (J0R_correct p Hp)). Qed.
+
+Theorem gauss_bridge_normalised (p P : R) (f : list R) : 0 < p ->
+  gint (fun x => peval f (x - P) * exp (- p * (x - P) ^ 2)) (J0R p * E RKd (vR p) f)
+  /\ Gint (fun x => peval f (x - P) * exp (- p * (x - P) ^ 2)) / J0R p = E RKd (vR p) f.
+Proof.
+  intro Hp. pose proof (gauss_bridge_shift p P _ Hp (J0R_correct p Hp) f) as H. split; [exact H|].
+  rewrite (Gint_correct _ _ H). field. apply Rgt_not_eq. now apply J0R_pos.
+Qed.
+
+(* (B1) in its final form, with the trusted fact reduced to an equation between two real numbers *)
+Theorem bridge_B1_from_value (p P : R) : 0 < p -> J0R p = sqrt (PI / p) ->
+  forall f : list R,
+    Gint (fun x => peval f (x - P) * exp (- p * (x - P) ^ 2)) / sqrt (PI / p) = E RKd (vR p) f.
+Proof. intros Hp <- f. now apply gauss_bridge_normalised. Qed.
